@@ -71,7 +71,17 @@ def theorems_of(prop_file):
     return re.findall(r"^\s*(?:Theorem|Corollary)\s+([A-Za-z0-9_']+)", text, re.M)
 
 
-def check(prop):
+def coqchk(prop, timeout=1800):
+    """independent re-check of the compiled property file and everything it depends on"""
+    p = subprocess.run(["coqchk", "-o", "-silent", "-Q", COQ, "JP", "JP.Properties.%s" % prop],
+                       capture_output=True, text=True, timeout=timeout, cwd=COQ)
+    out = p.stdout + p.stderr
+    ok = p.returncode == 0 and "Axioms: <none>" in out and "type-in-type: <none>" in out \
+        and "unsafe (co)fixpoints: <none>" in out and "positivity is assumed: <none>" in out
+    return ok, out[-1500:]
+
+
+def check(prop, tier="quick"):
     """returns dict(ok, obligations, discharged, theorems, assumptions, error)"""
     prop_file = "Properties/%s.v" % prop
     res = {"ok": False, "obligations": 0, "discharged": 0, "theorems": [], "assumptions": {}, "error": None,
@@ -130,6 +140,16 @@ def check(prop):
         res["error"] = "could not read Print Assumptions for every theorem"
     if not ok and not res["error"]:
         res["error"] = "a property theorem depends on axioms outside the allowlist: %r" % res["assumptions"]
+    if ok and tier == "thorough":
+        try:
+            cok, cout = coqchk(prop)
+        except subprocess.TimeoutExpired:
+            cok, cout = False, "coqchk timed out"
+        res["coqchk"] = "ok: no axioms, no type-in-type, no unsafe fixpoints, no assumed positivity" if cok else cout
+        res["checker_cmd"] += " + coqchk -o -silent JP.Properties.%s" % prop
+        if not cok:
+            ok = False
+            res["error"] = "coqchk does not accept the compiled development: " + cout[-800:]
     res["ok"] = ok
     res["discharged"] = res["obligations"] if ok else 0
     return res
